@@ -559,6 +559,13 @@ impl Sim for SimG {
         let events: Vec<(usize, i64, i64)> = (0..n_events)
             .map(|_| (rng.usize(n_inst), rng.range(50, 150), rng.range(0, 3)))
             .collect();
+        // some datasets are not chronological (concatenated sessions, late prints): dataset order
+        // is what must be preserved, not time order
+        let events: Vec<(usize, i64, i64)> = if rng.chance(1, 3) {
+            events.into_iter().map(|(i, p, dt)| (i, p, if rng.chance(1, 6) { -dt - 1 } else { dt })).collect()
+        } else {
+            events
+        };
         let n_bt = if in_memory { 2 + rng.usize(2) } else { 2 + rng.usize(5) };
         let backtests: Vec<BtG> = (0..n_bt)
             .map(|_| {
@@ -726,6 +733,9 @@ impl Sim for SimG {
             if n_bt >= 4 {
                 stats.probe("four_or_more_concurrent");
             }
+            if sc.events.iter().any(|e| e.2 < 0) {
+                stats.probe("dataset_not_chronological");
+            }
             if sc.in_memory && n_events >= 1024 {
                 stats.probe("in_memory_dataset_over_1k_events");
             }
@@ -821,6 +831,7 @@ impl Sim for SimG {
             "four_or_more_concurrent",
             "in_memory_dataset_over_1k_events",
             "slow_market_source_over_30s",
+            "dataset_not_chronological",
         ]
     }
     fn assumptions(&self) -> Vec<String> {
